@@ -124,6 +124,8 @@ func boolStr(v Value) Value {
 func init() {
 	env := map[string]stubFn{
 		rtPkg + "EnvSet": func(e *Engine, _ *ssa.Function, a []Value) Value { e.env[a[0].(string)] = a[1]; return nil },
+		// EnvSetBool stores a (possibly symbolic) boolean, e.g. the task order of a WaitGroup
+		rtPkg + "EnvSetBool": func(e *Engine, _ *ssa.Function, a []Value) Value { e.env[a[0].(string)] = a[1]; return nil },
 		rtPkg + "EnvGet": func(e *Engine, _ *ssa.Function, a []Value) Value { return e.envGet(a[0].(string)) },
 		rtPkg + "EnvInt": func(e *Engine, _ *ssa.Function, a []Value) Value {
 			if v, ok := e.envGet(a[0].(string)).(int64); ok {
